@@ -22,7 +22,7 @@ def main():
             if inc and rotate:
                 k = rotate % len(inc)
                 inc = inc[k:] + inc[:k]
-                if rotate % 2:
+                if (rotate // len(inc)) % 2:
                     inc.reverse()
             c = dict(c, include_dirs=inc)
             r = runner.run_case(c, keep_dir=d)
